@@ -362,6 +362,11 @@ class Check:
             specs.append({"name": f"inv-{f}", "kind": "inventory", "src": ["asset", f]})
         for s in range(40 if q else 300):
             specs.append({"name": f"inv-gen-{seed * 1000 + s}", "kind": "inventory", "src": ["gen", {"seed": seed * 1000 + s}]})
+        for s in range(8 if q else 60):
+            specs.append({"name": f"inv-gen-wlan-{seed * 1000 + 300 + s}", "kind": "inventory", "src": ["gen", {"seed": seed * 1000 + 300 + s, "family": "wlan"}]})
+        for s in range(2 if q else 10):
+            sd = seed * 1000 + 750 + s
+            specs.append({"name": f"meta-gen-wlan-{sd}", "kind": "metamorphic", "src": ["gen", {"seed": sd, "family": "wlan"}], "seed": sd, "steps": 40 if q else 96, "perms": 3 if q else 10})
         specs.append({"name": "meta-uc2", "kind": "metamorphic", "src": ["shipped", "data_manipulation.yaml"], "seed": seed, "steps": 40 if q else 128, "perms": 3 if q else 10})
         for s in range(6 if q else 30):
             sd = seed * 1000 + 700 + s
